@@ -8,3 +8,7 @@ def run(ctx, rep):
     ext.rule_gemv_offsets(mod, rep)
     ext.rule_uninit_reads(mod, rep, ["?CompRow_to_CompCol", "?Copy_CompCol_Matrix", "?Copy_Dense_Matrix", "sp_?trsv", "sp_?gemv", "sp_?gemm", "?gstrs", "?langs", "?allocateA"])
     misc.rule_dense_stride(mod, rep, patterns=("?gstrs", "?gsrfs"))
+    from ..rules import more
+    more.rule_ld_pairing(mod, rep)
+    more.rule_gemv_beta0(mod, rep)
+    more.rule_trsv_loops(mod, rep)
